@@ -288,7 +288,7 @@ func (b *basicCommonValidator) Validate(data interface{}) (res *Result) {
 		expectedValue := reflect.ValueOf(data)
 		if expectedValue.IsValid() &&
 			expectedValue.Type().ConvertibleTo(actualType) &&
-			reflect.DeepEqual(expectedValue.Convert(actualType).Interface(), enumValue) {
+			equalAfterNumericConversion(expectedValue, actualType, enumValue) {
 			return nil
 		}
 	}
